@@ -171,10 +171,18 @@ def honest_case(P, r, a_controls, reverse, drop_ab, drop_ba, sizes, stats, viol)
     for i, n in enumerate(sizes):
         frm = "a" if i % 2 == 0 else "b"
         payloads.append({"from": frm, "hex": (bytes([0x80 + i % 100]) + r.randbytes(n - 1)).hex() if n > 1 else bytes([0x80 + i % 100]).hex()})
-    out = P.rpc({"op": "run", "honest": True, "packets": [], "startAt": 0, "watchdog": 30000, "linger": 250, "dropAB": drop_ab, "dropBA": drop_ba, "reverseCandidates": reverse, "payloads": payloads})
+    out = P.rpc({"op": "run", "honest": True, "packets": [], "startAt": 0, "watchdog": 12000, "linger": 250, "dropAB": drop_ab, "dropBA": drop_ba, "reverseCandidates": reverse, "payloads": payloads})
     stats["honest_cases"] += 1
     w = {"a_controlling": a_controls, "drop_first_transmissions": {"a->b": drop_ab, "b->a": drop_ba}, "relay_transactions": out["relayTx"], "elapsed_ms": out["elapsed"], "a_log": out["a"]["log"], "b_log": out["b"]["log"]}
     if not (out["a"]["connected"] and out["b"]["connected"]):
+        if out["timedOut"] and out["a"]["connected"] != out["b"]["connected"]:
+            # bounded progress instead of a bare deadline: one agent has been connected for many retransmission intervals (every pending
+            # transaction has been retransmitted over a loss-free path by then) and the other still is not
+            side = "a" if out["a"]["connected"] else "b"
+            since = out["elapsed"] - max(0, out[side]["connectedAt"])
+            if since > 6000:
+                controlled_missing = (side == "a") == bool(a_controls)
+                return ("one-sided", dict(w, connected_side=side, connected_for_ms=since, missing="controlled" if controlled_missing else "controlling"))
         if out["timedOut"]:
             return ("watchdog", w)
         viol.append(("honest-peers-not-connected", "two agents that exchanged credentials and candidates did not both reach connected", w))
@@ -217,11 +225,19 @@ def worker(args):
             inconc.append(e)
     for (a_controls, reverse, dab, dba, sizes) in honest_jobs:
         e = guarded(honest_case, r, a_controls, reverse, dab, dba, sizes, stats, viol)
+        if e and e[0] == "one-sided":
+            # seen once: repeat; seen twice: the peers do not both reach the connected state
+            e2 = guarded(honest_case, r, a_controls, reverse, dab, dba, sizes, stats, viol)
+            if e2 and e2[0] == "one-sided":
+                viol.append(("honest-peers-one-sided %s agent never connects" % e2[1]["missing"], "one agent reports connected, the other still does not %d ms later (loss confined to first transmissions), twice" % e2[1]["connected_for_ms"], e2[1]))
+            elif e2:
+                inconc.append("one-sided connection not reproduced: %s" % e2[0])
+            continue
         if e and e[0] == "watchdog":
             # a wall-clock watchdog is never a verdict: retry once
             e2 = guarded(honest_case, r, a_controls, reverse, dab, dba, sizes, stats, viol)
             if e2 and e2[0] == "watchdog":
-                inconc.append("honest negotiation did not finish within 30 s twice: %s" % json.dumps(e2[1])[:300])
+                inconc.append("honest negotiation did not finish within 12 s twice: %s" % json.dumps(e2[1])[:300])
     P.close()
     return viol, dict(stats), inconc
 
